@@ -49,6 +49,7 @@ class Scenario(object):
         self._spec = None
         self._graph = None
         self._inspection = None
+        self._partial_joins = None
 
     def to_json(self):
         return {
@@ -91,6 +92,21 @@ class Scenario(object):
             c = conducting.WorkflowConductor(self.spec, inputs=copy.deepcopy(self.inputs))
             self._graph = c.graph
         return self._graph
+
+    @property
+    def partial_joins(self):
+        """Tasks declared join: N with N smaller than their number of inbound tasks, outside cycles
+        (read from the definition only). Used to recognise known finding F01 in signatures."""
+        if self._partial_joins is None:
+            from vx import refdef
+
+            d = refdef.RefDef(self.wf)
+            self._partial_joins = {
+                t for t in d.order
+                if d.is_join(t) and d.tasks[t]["join"] != "all"
+                and d.join_requirement(t) < len(d.inbound_tasks(t)) and not d.in_cycle(t)
+            }
+        return self._partial_joins
 
     def menu(self, task_id):
         return self.outcomes.get(task_id, self.outcomes.get("*", [[st.SUCCEEDED, None]]))
@@ -190,6 +206,8 @@ class Sim(object):
             "pause_req": False,  # a pause request is outstanding (not yet resumed)
             "cancel_req": False,
             "reruns": 0,
+            "pj": {},  # offers per partial join "task__rN" (known finding F01 recognition)
+            "rejoin": False,  # a partial join was offered again without a rerun in between
             "dup": [],  # tasks acked while an earlier execution of the same (task, route) was in flight
             "broken": False,  # an exception escaped mid-protocol; do not continue
             "steps": 0,
@@ -357,6 +375,14 @@ class Sim(object):
         acks = []
         for t in offers:
             tid, route = t["id"], t["route"]
+            if tid in self.scn.partial_joins:
+                k = "%s__r%s" % (tid, route)
+                first_items_offer = "items_count" not in t or not any(
+                    a[0] == tid and a[1] == route for a in self.h["inflight"])
+                if first_items_offer:
+                    self.h["pj"][k] = self.h["pj"].get(k, 0) + 1
+                    if self.h["pj"][k] > 1:
+                        self.h["rejoin"] = True
             if "items_count" in t:
                 tk = "%s__r%s" % (tid, route)
                 n = t["items_count"]
@@ -498,6 +524,7 @@ class Sim(object):
         ]
         self.c.request_workflow_rerun(task_requests=task_requests or None)
         self.h["reruns"] += 1
+        self.h["pj"] = {}
         self.h["need_dispatch"] = True
         self.h["pause_req"] = False
         self.h["cancel_req"] = False
